@@ -24,6 +24,7 @@ import (
 	"os"
 	"sort"
 	"strings"
+	"time"
 
 	"github.com/ccbrown/api-fu/graphql/parser"
 	"github.com/ccbrown/api-fu/graphql/schema"
@@ -1026,7 +1027,9 @@ func (h *harness) randomComposite(n int, maxDepth int) {
 // polymorphic: one field node against two concrete types with their own argument defaults.
 func (h *harness) polymorphic(n int) {
 	run := h.run
-	var groups []*Group
+	groups := h.polyVariantsExhaustive()
+	h.evalGroups(groups, 0, true)
+	groups = nil
 	for i := 0; i < n; i++ {
 		r := run.Rand.Fork()
 		tg := &typeGen{r: r, rich: r.Chance(1, 3)}
@@ -1036,22 +1039,70 @@ func (h *harness) polymorphic(n int) {
 		} else {
 			t = tg.top(r.Range(0, 3))
 		}
-		dflt := func() *hx.Sexp {
+		dflt := func(t *Ty) *hx.Sexp {
 			if r.Chance(1, 3) {
 				return nil
 			}
 			return tg.dflt(t)
 		}
+		// the implementers' own argument types: TRY definitions that differ from the interface's
+		// (polyvariant.go); what schema.New refuses is counted and the group falls back to equal types
+		tA, tB := t, t
+		variant := false
+		shape := ""
+		if r.Chance(1, 12) {
+			shape = hx.Pick(r, []string{shapeLacks, shapeRequired})
+			if ok, _ := polyAcceptedShape(t, t, t, shape); ok {
+				run.Count("poly-variant:" + shape + ": ACCEPTED by schema.New (used)")
+				variant = true
+			} else {
+				run.Count("poly-variant:" + shape + ": refused by schema.New (discarded)")
+				shape = ""
+			}
+		} else if r.Chance(1, 2) {
+			var kinds []string
+			which := r.Intn(3)
+			if which != 1 {
+				var k string
+				tA, k = variantOf(r, tg, t)
+				kinds = append(kinds, k)
+			}
+			if which != 0 {
+				var k string
+				tB, k = variantOf(r, tg, t)
+				kinds = append(kinds, k)
+			}
+			ok, why := polyAccepted(t, tA, tB)
+			for _, k := range kinds {
+				if ok {
+					run.Count("poly-variant:" + k + ": ACCEPTED by schema.New (used)")
+				} else {
+					run.Count("poly-variant:" + k + ": refused by schema.New (discarded)")
+				}
+			}
+			if ok {
+				variant = true
+			} else {
+				if !strings.Contains(why, "argument is not the same type as the corresponding interface argument") {
+					run.Count("poly-variant: refused for another reason: " + why)
+				}
+				tA, tB = t, t
+			}
+		}
 		var v *hx.Sexp
 		if !r.Chance(1, 3) {
 			vg := &valueGen{r: r}
+			if variant {
+				vg.nulls = 30 // nulls wherever the declared variable type allows one
+			}
 			if r.Chance(1, 3) {
 				vg.junk = r.Range(3, 15)
 			}
 			x := vg.valid(t, false, false, 3)
 			v = &x
 		}
-		groups = append(groups, newPolyGroup(t, dflt(), dflt(), dflt(), v, hx.Pick(r, []string{"interface-list", "union-fragment"})))
+		vias := []string{"interface-list", "union-fragment", "interface-list", "union-fragment", "concrete-fragment", "union-concrete"}
+		groups = append(groups, newPolyGroupShape(t, tA, tB, dflt(t), dflt(tA), dflt(tB), v, hx.Pick(r, vias), shape))
 		if len(groups) >= 200 {
 			h.evalGroups(groups, 2, true)
 			groups = nil
@@ -1405,14 +1456,21 @@ func main() {
 		h.evalGroups([]*Group{g}, 0, true)
 		run.Count("corpus")
 	}
-	h.exhaustive()
+	phase := func(name string, f func()) {
+		t0 := time.Now()
+		f()
+		if os.Getenv("VERIF_VERBOSE") != "" {
+			fmt.Fprintf(os.Stderr, "phase %s: %.1fs\n", name, time.Since(t0).Seconds())
+		}
+	}
+	phase("exhaustive", h.exhaustive)
 	h.exhaustiveNilEnum()
 	h.exhaustiveGoKinds()
 	h.dateTimeShapes(run.Scale(3000, 60000))
 	run.Note("exhaustive part: 7 scalars + 2 enums × wrapper forms × every boundary value (in 2–5 list shapes) × the deterministic spellings; @skip/@include × 8 values")
-	h.randomComposite(run.Scale(4000, 150000), run.Scale(4, 6))
-	h.polymorphic(run.Scale(700, 20000))
-	h.documentShapes(run.Scale(500, 12000))
+	phase("randomComposite", func() { h.randomComposite(run.Scale(4000, 150000), run.Scale(4, 6)) })
+	phase("polymorphic", func() { h.polymorphic(run.Scale(700, 20000)) })
+	phase("documentShapes", func() { h.documentShapes(run.Scale(500, 12000)) })
 
 	h.finish()
 }
